@@ -6,10 +6,13 @@
   -----------------------------------  ------------------------------------------
   GetSemanticTokensLegend              legendTypes, legendMods
   mapTokenType                         mapTokenType
-  lsputil.UTF16Len                     u16lenB           (on the bytes of a token value)
+  lsputil.UTF16Len                     u16lenB           (on a byte string)
   isValidTagName                       isValidTagName    (unicode.IsLetter/IsDigit = `Classes`)
-  extractTagTokensFromComment          extractTags / extractStep
-  tokenizeForSemantics                 tokenize / tokGo / stepTok   (INPUT: the lexer's token list)
+  leadingSpace                         leadWs
+  lexemeSpan                           plainSpan         (byte offset of the first character, length)
+  utf16Columns.at                      colAt / colF      (see below)
+  extractTagTokensFromComment          extractTags / extractSpans / extractStep
+  tokenizeForSemantics                 tokenize / tokGo / stepTok   (INPUT: the text and the lexer's token list)
   SemanticTokenEncoder.Encode          encodeGo          (UInt32, wrap-around kept)
   encodeTokens                         encodeTokens
   filterTokensByRange                  filterByRange
@@ -18,8 +21,16 @@
   SemanticTokensFull / Range / FullDelta   step (.full / .range / .delta)
   DidOpen / DidChange (result only) / DidClose   step (.setDoc / .close)
 
-  The lexer (parser/lexer.go) is NOT modelled here: `tokenize` takes the list of lexer tokens
-  (`HL.Token`, up to and including the EOF token) as its input.  Strings are byte lists; the few
+  The lexer (parser/lexer.go) is NOT modelled here: `tokenize` takes the document text and the
+  list of lexer tokens (`HL.Token`, up to and including the EOF token) as its input.
+  `utf16Columns` is a cursor over the text (`off`, `col`) that is moved forward by `at(off)` and
+  starts again from the beginning when asked for an offset before `off`; whatever was asked
+  before, `at(off)` returns the same value: decode the text rune by rune from its start, stop at
+  the first rune that does not start before `off`, count the UTF-16 units of the runes seen since
+  the last line feed.  `colAt text off` is that function (the cursor itself is not modelled).
+  `content[a:b]` is `sliceB`, total here; Go panics when `a > b` or `b > len(content)`, which no
+  lexer output does (`Pos.Offset ≤ End.Offset ≤ len`), and the position theorems assume it.
+  Strings are byte lists; the few
   `strings.*` / `unicode/utf8` functions the file uses are transcribed below.  `uint32`
   arithmetic is Lean `UInt32` arithmetic, `uint64` (the result-id counter) is `UInt64`.
   `cachedSemanticTokens.tokens` is stored by the Go code but never read; it is not modelled.
@@ -126,6 +137,27 @@ def indexOf (pat : Bytes) : Bytes → Option Nat
 def colon : UInt8 := 0x3A
 def comma : UInt8 := 0x2C
 
+/-- `content[a:b]` for `a ≤ b ≤ len(content)`. -/
+def sliceB (text : Bytes) (a b : Nat) : Bytes := (text.drop a).take (b - a)
+
+/-- `leadingSpace`: `len(s) - len(strings.TrimLeftFunc(s, unicode.IsSpace))`. -/
+def leadWs (s : Bytes) : Nat := (unchunk ((chunks s).takeWhile (fun c => isSpaceRune c.1))).length
+
+/-- The loop of `utf16Columns.at` started at the beginning of the text: `s` = the text from
+    byte `pos` on, `col` = UTF-16 units since the last line feed before `pos`. -/
+def colF : Nat → Bytes → Nat → Nat → Nat → Nat
+  | 0, _, _, col, _ => col
+  | _, [], _, col, _ => col
+  | f+1, s@(_ :: _), pos, col, off =>
+    if pos < off then
+      let (r, k) := decodeRune s
+      colF f (s.drop k) (pos + k) (if r == 0x0A then 0 else col + u16w r) off
+    else col
+
+/-- `utf16Columns.at(off)`: the UTF-16 column of byte offset `off` (before the `uint32`
+    conversion). -/
+def colAt (text : Bytes) (off : Nat) : Nat := colF text.length text 0 0 off
+
 /-! ### Unicode classes (parameters: `unicode.IsLetter`, `unicode.IsDigit`) -/
 
 structure Classes where
@@ -196,52 +228,51 @@ def u32 (n : Nat) : UInt32 := UInt32.ofNat n
 /-- `uint32(n - 1)` for a Go `int` `n ≥ 0` (for `n = 0` this is `0xFFFFFFFF`, as in Go). -/
 def u32pred (n : Nat) : UInt32 := UInt32.ofNat n - 1
 
-/-- A token found inside a comment, before it is given a line and column:
-    byte offset in the comment text, byte length, token type. -/
+/-- The place of a token in the text before it is given a line and a column: byte offset,
+    byte length, length in UTF-16 units, token type.  For a tag or tag value the offset is
+    relative to the comment text (the comment's value). -/
 structure TagSpan where
   off : Nat
   len : Nat
+  len16 : Nat
   ty : UInt32
 deriving Repr, DecidableEq, Inhabited
 
-/-- One iteration of the `for _, part := range parts` loop of `extractTagTokensFromComment`.
-    State: `searchStart` and the tokens appended so far (as spans: the Go code computes
-    `col = baseCol + 1 + uint32(off)`, `length = uint32(len)` from exactly these numbers). -/
-def extractStep (cls : Classes) (comment : Bytes) (st : Nat × List TagSpan) (part : Bytes) :
-    Nat × List TagSpan :=
-  let searchStart := st.1
+/-- One iteration of the `for _, part := range strings.Split(commentText, ",")` loop of
+    `extractTagTokensFromComment`.  State: `partStart` and the tokens appended so far (as
+    spans: the Go code computes `col = columns.at(textOffset + off)`, `length = uint32(len16)`
+    from exactly these numbers). -/
+def extractStep (cls : Classes) (st : Nat × List TagSpan) (part : Bytes) : Nat × List TagSpan :=
+  let tagStart := st.1 + leadWs part
+  let next := st.1 + part.length + 1
   let trimmed := trimSpace part
   match indexOf [colon] trimmed with
-  | none => st
+  | none => (next, st.2)
   | some colonIdx =>
-    let name := trimSpace (trimmed.take colonIdx)
-    if name.isEmpty || !isValidTagName cls name then st else
-    match indexOf (name ++ [colon]) (comment.drop searchStart) with
-    | none => st
-    | some ts =>
-      let tagStart := ts + searchStart
-      let acc := st.2 ++ [{ off := tagStart, len := name.length + 1, ty := tyTag }]
-      let tagNameEnd := tagStart + name.length + 1
-      let value := if colonIdx + 1 < trimmed.length then trimSpace (trimmed.drop (colonIdx + 1)) else []
-      if value.isEmpty then (tagNameEnd, acc) else
-      match indexOf value (comment.drop tagNameEnd) with
-      | none => (tagNameEnd, acc)
-      | some vs =>
-        (tagNameEnd + vs + value.length,
-         acc ++ [{ off := tagNameEnd + vs, len := value.length, ty := tyTagValue }])
+    let name := trimmed.take colonIdx
+    if name.isEmpty || !isValidTagName cls name then (next, st.2) else
+    let tagNameEnd := tagStart + name.length + 1
+    let acc := st.2 ++ [{ off := tagStart, len := name.length + 1, len16 := u16lenB name + 1, ty := tyTag }]
+    let rest := trimmed.drop (colonIdx + 1)
+    let value := trimSpace rest
+    if value.isEmpty then (next, acc) else
+    (next, acc ++ [{ off := tagNameEnd + leadWs rest, len := value.length, len16 := u16lenB value,
+                     ty := tyTagValue }])
 
 /-- The spans `extractTagTokensFromComment` finds in a comment text. -/
 def extractSpans (cls : Classes) (comment : Bytes) : List TagSpan :=
   if !comment.contains colon then [] else
-  ((splitOn comma comment).foldl (extractStep cls comment) (0, [])).2
+  ((splitOn comma comment).foldl (extractStep cls) (0, [])).2
 
-/-- `semanticToken{line: baseLine, col: baseCol + 1 + uint32(off), length: uint32(len), …}`. -/
-def tagToken (baseLine baseCol : UInt32) (sp : TagSpan) : SemToken :=
-  { line := baseLine, col := baseCol + 1 + u32 sp.off, len := u32 sp.len, ty := sp.ty, mods := 0 }
+/-- `semanticToken{line: baseLine, col: columns.at(textOffset + off), length: uint32(len16), …}`
+    with `textOffset = tok.Pos.Offset + 1`. -/
+def tagToken (text : Bytes) (t : Token) (sp : TagSpan) : SemToken :=
+  { line := u32pred t.pos.line, col := u32 (colAt text (t.pos.off + 1 + sp.off)), len := u32 sp.len16,
+    ty := sp.ty, mods := 0 }
 
 /-- `extractTagTokensFromComment` (`[]` for nil). -/
-def extractTags (cls : Classes) (t : Token) : List SemToken :=
-  (extractSpans cls t.val).map (tagToken (u32pred t.pos.line) (u32pred t.pos.col))
+def extractTags (cls : Classes) (text : Bytes) (t : Token) : List SemToken :=
+  (extractSpans cls t.val).map (tagToken text t)
 
 /-- The loop-carried variables of `tokenizeForSemantics`. -/
 structure Ctx where
@@ -264,14 +295,24 @@ def lineStart (c : Ctx) (t : Token) : Ctx :=
     else c
   else c
 
+/-- `lexemeSpan`: where the characters of a token start in the text (absolute byte offset),
+    how many bytes and how many UTF-16 units they are.  A comment is measured by its value (+1
+    for the semicolon), every other token by its source extent without surrounding white space. -/
+def plainSpan (text : Bytes) (t : Token) (semType : UInt32) : TagSpan :=
+  if t.ty == .comment then
+    { off := t.pos.off, len := t.val.length + 1, len16 := u16lenB t.val + 1, ty := semType }
+  else
+    let source := sliceB text t.pos.off t.stop.off
+    let lexeme := trimSpace source
+    { off := t.pos.off + leadWs source, len := lexeme.length, len16 := u16lenB lexeme, ty := semType }
+
 /-- The token appended at the end of the loop body. -/
-def plainToken (t : Token) (semType mods : UInt32) : SemToken :=
-  let length := u32 (u16lenB t.val)
-  let length := if t.ty == .comment then length + 1 else length
-  { line := u32pred t.pos.line, col := u32pred t.pos.col, len := length, ty := semType, mods := mods }
+def plainToken (text : Bytes) (t : Token) (semType mods : UInt32) : SemToken :=
+  let sp := plainSpan text t semType
+  { line := u32pred t.pos.line, col := u32 (colAt text sp.off), len := u32 sp.len16, ty := semType, mods := mods }
 
 /-- One iteration of the loop of `tokenizeForSemantics` for a non-EOF token. -/
-def stepTok (cls : Classes) (c : Ctx) (t : Token) : Ctx × List SemToken :=
+def stepTok (cls : Classes) (text : Bytes) (c : Ctx) (t : Token) : Ctx × List SemToken :=
   let c := lineStart c t
   match mapTokenType t.ty with
   | none => (c, [])
@@ -282,29 +323,32 @@ def stepTok (cls : Classes) (c : Ctx) (t : Token) : Ctx × List SemToken :=
     let payee := t.ty == .text && c.isPayee
     let semType := if payee then tyPayee else semType
     let c := if payee then { c with isPayee := false } else c
-    let tags := if t.ty == .comment then extractTags cls t else []
-    if !tags.isEmpty then (c, tags) else (c, [plainToken t semType mods])
+    let tags := if t.ty == .comment then extractTags cls text t else []
+    if !tags.isEmpty then (c, tags) else
+    -- `if length == 0 { continue }`
+    if u32 (plainSpan text t semType).len16 == 0 then (c, []) else (c, [plainToken text t semType mods])
 
-def tokGo (cls : Classes) : Ctx → List Token → List SemToken
+def tokGo (cls : Classes) (text : Bytes) : Ctx → List Token → List SemToken
   | _, [] => []
   | c, t :: ts =>
     if t.ty == .eof then [] else
-    let r := stepTok cls c t
-    r.2 ++ tokGo cls r.1 ts
+    let r := stepTok cls text c t
+    r.2 ++ tokGo cls text r.1 ts
 
-/-- `tokenizeForSemantics`, given the lexer's output for the content. -/
-def tokenize (cls : Classes) (toks : List Token) : List SemToken := tokGo cls {} toks
+/-- `tokenizeForSemantics`, given the content and the lexer's output for it. -/
+def tokenize (cls : Classes) (text : Bytes) (toks : List Token) : List SemToken := tokGo cls text {} toks
 
 /-- `tokGo` together with, for every emitted token, the lexer token it was made from
     (provenance only; `(tokGoSrc …).map (·.1) = tokGo …`, lemma `tokGoSrc_fst`). -/
-def tokGoSrc (cls : Classes) : Ctx → List Token → List (SemToken × Token)
+def tokGoSrc (cls : Classes) (text : Bytes) : Ctx → List Token → List (SemToken × Token)
   | _, [] => []
   | c, t :: ts =>
     if t.ty == .eof then [] else
-    let r := stepTok cls c t
-    r.2.map (·, t) ++ tokGoSrc cls r.1 ts
+    let r := stepTok cls text c t
+    r.2.map (·, t) ++ tokGoSrc cls text r.1 ts
 
-def tokenizeSrc (cls : Classes) (toks : List Token) : List (SemToken × Token) := tokGoSrc cls {} toks
+def tokenizeSrc (cls : Classes) (text : Bytes) (toks : List Token) : List (SemToken × Token) :=
+  tokGoSrc cls text {} toks
 
 /-! ### Encoding -/
 
